@@ -17,6 +17,8 @@ def run(ck, facts):
     adts = facts.all_adts()
     ck.units += ["diplomat_core.lib+hir (hir::methods, hir::lifetimes, ast::lifetimes, hir::lowering, hir::type_context)", "diplomat_tool.lib (js, dart, kotlin, nanobind)"]
     ck.rule("R1", "every managed backend's method generator creates the borrow visitor, visits self and every parameter unconditionally, and consumes borrow_map() of the same visitor into what the template renders")
+    ck.rule("R6", "lifetime indices are formatted with the environment they index: keys of borrowed_struct_lifetime_map (definition-site lifetimes of the struct) with StructBorrowInfo.env, "
+                  "the values (use-site lifetimes) with the using method's / outer struct's environment")
     ck.rule("R5", "use-site and def-site lifetimes are paired positionally: both sides of every zip in hir::lifetimes are order- and length-preserving chains; "
                   "nanobind omits keep_alive only for outputs its caster copies (string slices)")
     ck.rule("R2", "shape coverage: every hir::Type variant that can carry lifetimes gets an edge kind without panicking (options are unwrapped first); the only early exit of visit_param is `no lifetime is used by the return type`; the return type's lifetime set covers Ok and Err payloads of every ReturnType constructor", exhaustive=True)
@@ -306,3 +308,43 @@ def run(ck, facts):
                     sup = sorted(v.show() for v, hits in C.decision_table(mm, adts) if hits and hits[0][0] == 0)
     ck.expect(sup == ["OutType(Slice(Str))"], "R5", "nanobind::gen_method_info/keep_alive-suppressed-for", str(sup),
               "nanobind drops nb::keep_alive for outputs %s; only string slices are copied by their caster (expected ['OutType(Slice(Str))']): a borrowed primitive-slice view would outlive the object it points into" % sup, C.loc(nb))
+
+
+    # ---------------- R6 branded lifetime indices
+    n6 = 0
+    for f in tool.fn_list:
+        if "hir" not in f:
+            continue
+        for lp in C.walk(C.fn_body(f)):
+            if lp.get("k") != "for" or not any(x.get("k") == "field" and x.get("n") == "borrowed_struct_lifetime_map" for x in C.walk(lp["iter"])):
+                continue
+            pat = lp.get("pat") or {}
+            subs = pat.get("sub") or []
+            if pat.get("k") != "tuple" or len(subs) != 2 or subs[0].get("k") != "bind":
+                ck.bad("R6", "%s/loop-pattern" % f["name"], "loop over borrowed_struct_lifetime_map does not destructure (def_lt, use_lts)", C.loc(f, lp.get("ln")))
+                continue
+            key_id = subs[0].get("id")
+            vals_id = subs[1].get("id")
+            # locals bound by iterating the value set
+            val_elems = set()
+            for inner in C.walk(lp["body"]):
+                if inner.get("k") == "for" and any(x.get("k") == "local" and x.get("id") == vals_id for x in C.walk(inner["iter"])):
+                    val_elems |= C.pat_bind_ids(inner.get("pat"))
+            for x in C.walk(lp["body"]):
+                if x.get("k") != "mcall" or x.get("m") != "fmt_lifetime" or not x.get("a"):
+                    continue
+                a = C.strip(x["a"][0])
+                rc = C.strip(x["recv"])
+                is_struct_env = rc.get("k") == "field" and rc.get("n") == "env" and "StructBorrowInfo" in (rc.get("bty") or "")
+                fn_key = C.norm_path(f["path"]).split("::")[-1]
+                if a.get("k") == "local" and a.get("id") == key_id:
+                    n6 += 1
+                    ck.expect(is_struct_env, "R6", "%s/def-lifetime-env" % fn_key, "StructBorrowInfo.env.fmt_lifetime(def_lt)",
+                              "a definition-site lifetime of the struct is looked up in `%s` instead of the struct's own environment (StructBorrowInfo.env): wrong name, or "
+                              "`Found out of range lifetime` panic when the struct has more lifetimes than the user" % (rc.get("n")), C.loc(f, x.get("ln")))
+                elif a.get("k") == "local" and a.get("id") in val_elems:
+                    n6 += 1
+                    ck.expect(not is_struct_env, "R6", "%s/use-lifetime-env" % fn_key, "%s.fmt_lifetime(use_lt)" % rc.get("n"),
+                              "a use-site lifetime is looked up in the struct's definition environment", C.loc(f, x.get("ln")))
+    if n6 < 4:
+        ck.bad("R6", "floor", "only %d branded fmt_lifetime calls found (4 counted: dart and js, def and use)" % n6)
